@@ -72,8 +72,12 @@ def rand_graph(rng, pcmci=False):
             d["lag"] = int(rng.integers(0, 5))
         if rng.random() < 0.8:
             d["cmi"] = float(rng.integers(-32, 64)) / 16          # raw kNN / KDE estimates are negative now and then; the export copies whatever the edge carries
+            if rng.random() < 0.12:
+                d["cmi"] = 0.0                                     # the clamped value: always present (a falsy number is a number)
         if rng.random() < 0.8:
             d["p_value"] = float(rng.integers(0, 17)) / 16
+            if rng.random() < 0.1:
+                d["p_value"] = 0.0
         if pcmci:
             if rng.random() < 0.7:
                 d["val"] = float(rng.integers(-32, 32)) / 8
